@@ -24,7 +24,7 @@ comparison (optional members absent or null, floats as f64, ints as i64); (2) th
 values equal (derived PartialEq) to the same JSON read into the generated types; (3) the reply / declared error on \
 the wire equals the scripted JSON and the client returns the matching reply struct / ErrorKind variant; (4) raw \
 requests with a required member dropped or a leaf retyped to a JSON type its IDL type cannot accept are answered \
-with org.varlink.service.InvalidParameter. Two hand-written definitions (an error named like a standard error, map of nullable values, objects with null members) are part of every run. Non-trivial: a value tuple containing a set optional, a non-empty \
+with org.varlink.service.InvalidParameter. Two hand-written definitions (an error named like a standard error, map of nullable values, objects with null members, methods named Type / Self / Do whose snake_case form is a Rust keyword) are part of every run. Non-trivial: a value tuple containing a set optional, a non-empty \
 collection, an enum or a keyword-named field; distinct by (definition, method, mode, value hash).";
 
 // ------------------------------------------------------------------------------------------------
@@ -274,6 +274,10 @@ fn fixed_items() -> Vec<crate::c09::Item> {
         members: vec![
             m("State", Def::Type(Ty::Enum(vec!["on".into(), "off".into(), "type".into()]))),
             m("Set", Def::Method(vec![f("state", named("State")), f("values", Ty::Dict(Box::new(opt(Ty::Float)))), f("extra", opt(Ty::Object))], vec![f("previous", opt(named("State")))])),
+            // methods whose snake_case form is a Rust keyword (former known class K4 of the generator)
+            m("Type", Def::Method(vec![f("type", Ty::Str)], vec![f("match", Ty::Int)])),
+            m("Self", Def::Method(vec![f("state", opt(named("State")))], vec![])),
+            m("Do", Def::Method(vec![], vec![f("done", Ty::Bool)])),
             m("InterfaceNotFound", Def::Error(vec![])),
             m("Failed", Def::Error(vec![f("reason", opt(Ty::Str)), f("states", Ty::Array(Box::new(opt(named("State")))))])),
         ],
@@ -319,10 +323,10 @@ pub fn build(ctx: &mut Ctx, n: usize) -> Option<Built> {
         };
         // self-check of the snake_case port against the emitted source
         for m in it.idl.of_kind("method") {
-            let needle = format!("fn {} (", crate::driver::snake(&m.name));
-            let needle2 = format!("fn {}(", crate::driver::snake(&m.name));
+            let f = crate::driver::method_fn(&m.name);
+            let plain = f.trim_start_matches("r#").to_string();
             let text = src.clone().unwrap_or_default();
-            if !text.contains(&needle) && !text.contains(&needle2) {
+            if ![format!("fn {} (", f), format!("fn {}(", f), format!("fn {} (", plain), format!("fn {}(", plain)].iter().any(|n| text.contains(n.as_str())) {
                 ctx.inconclusive(&format!("HARNESS: snake_case port disagrees with the generator for method {}", m.name));
                 return None;
             }
